@@ -287,9 +287,11 @@ class Spec:
 
 def write_sgz(path, cube, rate, bs, ilines=None, xlines=None, t0_ms=0, dt_us=4000, arrays=None, consts=None,
               dups=None, version=(0, 2, 9), released=True, tracecount=None, filehdr=None, source_code=20,
-              detect_code=0, hash_bytes=None, pad_mode='edge'):
+              detect_code=0, hash_bytes=None, pad_mode='edge', f64=None):
     """Build an SGZ file from the specification.  cube: (nI,nX,nZ) float32 or (nT,nZ) for 2D
-    (bs[0] == 1).  arrays: {key: int array over grid traces} stored in table order."""
+    (bs[0] == 1).  arrays: {key: int array over grid traces} stored in table order.
+    f64 = (first sample, increment) in ms as floats: the float64 sample-axis fields (bytes 84-99, increment in us) that
+    files converted from ZGY carry and that take precedence over the integer fields."""
     arrays = dict(arrays or {})
     consts, dups = dict(consts or {}), dict(dups or {})
     is2d = cube.ndim == 2
@@ -325,6 +327,8 @@ def write_sgz(path, cube, rate, bs, ilines=None, xlines=None, t0_ms=0, dt_us=400
     struct.pack_into('<IIII', h, 56, len(blocks), 4 * grid, len(arrays), ntr)
     struct.pack_into('<I', h, 72, enc_version(*version, released=released))
     struct.pack_into('<II', h, 76, source_code, detect_code)
+    if f64 is not None:
+        struct.pack_into('<dd', h, 84, float(f64[0]), float(f64[1]) * 1000.0)
     if hash_bytes:
         h[960:980] = hash_bytes
     for r, k in enumerate(KEYS):
